@@ -282,8 +282,9 @@ type c13Search struct {
 	idx      *c13Term
 	elem     *c13Term
 	idiom    string // "index" (index of the best entry + running maximum) | "pointer" (best entry so far)
-	loc, max types.Object
-	best     types.Object
+	loc, max *c13Slot
+	best     *c13Slot
+	flag     *c13Slot // a boolean set when an entry is selected ((index, ok) results instead of a sentinel)
 	locInit  int64
 	locKnown bool
 	selBad   string
@@ -294,12 +295,16 @@ type c13Search struct {
 	pos      token.Pos
 }
 
-// found is the selected history entry after the loop.
-func (s *c13Search) found(x *c13Exec) *c13Term {
-	if s.idiom == "pointer" {
-		return x.loopVar(c13OpLoopOut, s.l, s.best)
+// found lists the spellings of the selected history entry after the loop (by index, by pointer).
+func (s *c13Search) found(x *c13Exec) []*c13Term {
+	var out []*c13Term
+	if s.loc != nil {
+		out = append(out, x.index(s.H, s.loc.after))
 	}
-	return x.index(s.H, x.loopVar(c13OpLoopOut, s.l, s.loc))
+	if s.best != nil {
+		out = append(out, s.best.after)
+	}
+	return out
 }
 
 func (m *c13Model) versionOf(t *c13Term, kind int) *c13Term {
@@ -320,14 +325,19 @@ func (m *c13Model) analyseSearch(l *c13Loop, H, idx *c13Term, counter types.Obje
 	cand := x.index(H, idx)
 	CV, OV := m.versionOf(cand, kind), m.versionOf(elem, kind)
 	// roles of the carried variables
-	in := func(w types.Object) *c13Term { return x.loopVar(c13OpLoopIn, l, w) }
+	slots := m.slots(l, counter)
 	for _, it := range append(append([]*c13Iter(nil), l.iters...), l.breaks...) {
-		for _, w := range l.vars {
-			if w == counter || it.out[w] == nil {
+		for _, w := range slots {
+			o := w.out(it)
+			if o == nil {
 				continue
 			}
-			switch it.out[w].key {
-			case in(w).key:
+			if b, isB := w.typ.Underlying().(*types.Basic); isB && b.Info()&types.IsBoolean != 0 && o.key == c13True.key {
+				s.flag = w
+				continue
+			}
+			switch o.key {
+			case w.in.key:
 			case CV.key:
 				s.max = w
 			case idx.key:
@@ -335,7 +345,7 @@ func (m *c13Model) analyseSearch(l *c13Loop, H, idx *c13Term, counter types.Obje
 			case cand.key:
 				s.best = w
 			default:
-				s.selUnk = fmt.Sprintf("the search loop sets %s to `%s`; accepted idioms: index of the best entry with a running maximum version, or the best entry so far", w.Name(), m.show(it.out[w]))
+				s.selUnk = fmt.Sprintf("the search loop sets %s to `%s`; accepted: the index of the best entry and/or the best entry itself, a running maximum of its Version, a found flag", w.Name(), m.show(o))
 				return s
 			}
 		}
@@ -365,12 +375,15 @@ func (m *c13Model) analyseSearch(l *c13Loop, H, idx *c13Term, counter types.Obje
 		return nil, false
 	}
 	switch {
-	case s.loc != nil && s.max != nil && s.best == nil:
+	case s.max != nil && (s.loc != nil || s.best != nil):
 		s.idiom = "index"
-		if li, isC := c13IntOf(l.pre[s.loc]); isC {
-			s.locInit, s.locKnown = li, true
+		if s.loc != nil {
+			// the index is a not-found indicator only when it starts at a value that is not an index
+			if li, isC := c13IntOf(s.loc.pre); isC && li < 0 {
+				s.locInit, s.locKnown = li, true
+			}
 		}
-		M := in(s.max)
+		M := s.max.in
 		dom = &c13Dom{vars: []string{"entry version vs own version", "entry version vs running maximum"}, vals: [][]string{rel3, rel3}}
 		interp = func(a c13Atom, allowed [][]bool) (bool, bool) {
 			if t, ok := relTruth(a.t, CV, OV); ok {
@@ -382,9 +395,9 @@ func (m *c13Model) analyseSearch(l *c13Loop, H, idx *c13Term, counter types.Obje
 			return false, false
 		}
 		expect = func(c []int) bool { return c[0] == 0 && c[1] == 2 }
-	case s.best != nil && s.loc == nil && s.max == nil:
+	case s.best != nil && s.max == nil:
 		s.idiom = "pointer"
-		B := in(s.best)
+		B := s.best.in
 		BV := m.versionOf(B, kind)
 		dom = &c13Dom{vars: []string{"entry version vs own version", "an entry is selected already", "entry version vs selected entry's version"},
 			vals: [][]string{rel3, {"no", "yes"}, rel3}}
@@ -402,33 +415,10 @@ func (m *c13Model) analyseSearch(l *c13Loop, H, idx *c13Term, counter types.Obje
 		}
 		expect = func(c []int) bool { return c[0] == 0 && (c[1] == 0 || c[2] == 2) }
 	default:
-		s.selUnk = "search idiom not recognised: the loop over the history must record either the index of the best entry together with a running maximum of its Version, or the best entry itself"
+		s.selUnk = "search idiom not recognised: the loop over the history must record the index of the best entry and/or the best entry itself, and compare against a running maximum of its Version or against the best entry's Version"
 		return s
 	}
-	// initial values (independent of the selection condition)
-	if s.idiom == "index" {
-		mi, okM := c13IntOf(l.pre[s.max])
-		li, okL := c13IntOf(l.pre[s.loc])
-		switch {
-		case !okM:
-			s.initBad = fmt.Sprintf("the running maximum %s starts at the non-constant `%s`", s.max.Name(), m.show(l.pre[s.max]))
-		case !okL:
-			s.initBad = fmt.Sprintf("the index %s starts at the non-constant `%s`", s.loc.Name(), m.show(l.pre[s.loc]))
-		case mi > 0:
-			s.initBad = fmt.Sprintf("the running maximum %s starts at %d: a history entry with version %d (a valid version >= 1) is never above it and cannot be selected, e.g. version 1 as predecessor of version 2", s.max.Name(), mi, mi)
-		case li >= 0:
-			s.initBad = fmt.Sprintf("the not-found sentinel of %s is %d, which is a valid index into the history", s.loc.Name(), li)
-		default:
-			s.locInit = li
-			s.initOK = fmt.Sprintf("the running maximum %s starts at the constant %d (< 1, below every valid version); %s starts at the sentinel %d (not an index)", s.max.Name(), mi, s.loc.Name(), li)
-		}
-	} else {
-		if l.pre[s.best].op != c13OpNil {
-			s.initBad = fmt.Sprintf("the best entry %s starts at `%s`, not nil", s.best.Name(), m.show(l.pre[s.best]))
-		} else {
-			s.initOK = fmt.Sprintf("the best entry %s starts at nil", s.best.Name())
-		}
-	}
+	m.searchInit(s)
 	switch {
 	case l.exits > 0:
 		s.selBad = "the search loop returns early: with an unsorted history a later entry with a greater version below the element's own is never seen"
@@ -451,7 +441,7 @@ func (m *c13Model) analyseSearch(l *c13Loop, H, idx *c13Term, counter types.Obje
 	for _, it := range l.iters {
 		ip := ipath{allowed: dom.all(), it: it}
 		for _, a := range it.st.pc[l.pcLen:] {
-			if counter != nil && a.val && a.t.op == c13OpLt && a.t.args[0].key == in(counter).key && a.t.args[1].op == c13OpLen {
+			if counter != nil && a.val && a.t.op == c13OpLt && a.t.args[0].key == x.loopVar(c13OpLoopIn, l, counter).key && a.t.args[1].op == c13OpLen {
 				continue // the loop condition of a counted loop
 			}
 			known, varies := interp(a, ip.allowed)
@@ -460,16 +450,23 @@ func (m *c13Model) analyseSearch(l *c13Loop, H, idx *c13Term, counter types.Obje
 				return s
 			}
 		}
-		changed := func(w types.Object) bool { return w != nil && it.out[w].key != in(w).key }
-		if s.idiom == "index" {
-			switch {
-			case changed(s.max) && changed(s.loc):
-				ip.update = true
-			case changed(s.max) != changed(s.loc):
-				ip.mixed = fmt.Sprintf("on a path through the search loop only one of %s and %s is updated: the recorded index is not the index of the running maximum", s.max.Name(), s.loc.Name())
+		changed := func(w *c13Slot) bool { o := w.out(it); return o != nil && o.key != w.in.key }
+		nCh, nRoles := 0, 0
+		var names []string
+		for _, w := range []*c13Slot{s.max, s.loc, s.best, s.flag} {
+			if w != nil {
+				nRoles++
+				names = append(names, w.Name())
+				if changed(w) {
+					nCh++
+				}
 			}
-		} else {
-			ip.update = changed(s.best)
+		}
+		switch {
+		case nCh == nRoles:
+			ip.update = true
+		case nCh != 0:
+			ip.mixed = fmt.Sprintf("on a path through the search loop only some of {%s} are updated: what is recorded is not the entry the comparison is made against", strings.Join(names, ", "))
 		}
 		ips = append(ips, ip)
 	}
@@ -515,32 +512,4 @@ func (m *c13Model) analyseSearch(l *c13Loop, H, idx *c13Term, counter types.Obje
 	s.selOK = fmt.Sprintf("%d path(s) through the loop over `%s`, evaluated on the %d order relations between the entry's Version, the element's own Version and the best so far: the selection is updated exactly for `entry < own && entry > best` (both strict); no other branch, effect or exit",
 		len(ips), m.show(H), len(dom.combos()))
 	return s
-}
-
-// foundTruth interprets a condition on the search result after the loop: truth when nothing was found / when an
-// entry was found (1, 0, -1 = the test does not separate the two).
-func (s *c13Search) foundTruth(m *c13Model, a *c13Term) (truth []int, ok bool) {
-	x := m.x
-	if s.idiom == "pointer" {
-		b := x.loopVar(c13OpLoopOut, s.l, s.best)
-		if a.op == c13OpEq && (a.args[0].key == b.key && a.args[1].op == c13OpNil || a.args[1].key == b.key && a.args[0].op == c13OpNil) {
-			return []int{1, 0}, true
-		}
-		return nil, false
-	}
-	if !s.locKnown {
-		return nil, false
-	}
-	loc := x.loopVar(c13OpLoopOut, s.l, s.loc)
-	if f, isCmp := c13CmpConst(a, func(t *c13Term) bool { return t.key == loc.key }); isCmp {
-		// not found: loc is the sentinel; found: loc is some index >= 0
-		return []int{c13B(f(s.locInit)), c13TruthFrom(f, 0)}, true
-	}
-	mx := x.loopVar(c13OpLoopOut, s.l, s.max)
-	if f, isCmp := c13CmpConst(a, func(t *c13Term) bool { return t.key == mx.key }); isCmp {
-		// not found: max is its initial value; found: max is a valid version (>= 1)
-		mi, _ := c13IntOf(s.l.pre[s.max])
-		return []int{c13B(f(mi)), c13TruthFrom(f, 1)}, true
-	}
-	return nil, false
 }
